@@ -31,6 +31,8 @@ struct Search {
     t0: u64,
     t_end: u64,
     is_host: bool,
+    /// Trace index of the call that started it (orders things that happen at one virtual instant).
+    idx0: usize,
 }
 
 fn searches(trace: &Trace, host: usize, horizon: u64) -> Vec<Search> {
@@ -55,7 +57,7 @@ fn searches(trace: &Trace, host: usize, horizon: u64) -> Vec<Search> {
             let t_death = trace.deaths().find(|d| d.host == host).map(|d| d.t).unwrap();
             t_end = t_end.min(t_death);
         }
-        v.push(Search { name, qtypes, t0: ci.t_start, t_end, is_host });
+        v.push(Search { name, qtypes, t0: ci.t_start, t_end, is_host, idx0: ci.idx });
     }
     v
 }
@@ -123,6 +125,8 @@ pub fn monitor(trace: &Trace, stepping: Stepping, horizon: u64, l: &mut Local) {
                 // previous actual query
                 let mut explained = vec![false; qs.len()];
                 for s in mine.iter() {
+                    // a query sent before this search was started, or after the next search of the name was, is not this chain's
+                    let next_idx0 = mine.iter().filter(|o| o.idx0 > s.idx0).map(|o| o.idx0).min().unwrap_or(usize::MAX);
                     let mut expect = s.t0; // next expected chain instant
                     let mut gap: u64 = 1;
                     let mut prev: Option<u64> = None;
@@ -134,7 +138,7 @@ pub fn monitor(trace: &Trace, stepping: Stepping, horizon: u64, l: &mut Local) {
                             if let Some((k, _)) = qs
                                 .iter()
                                 .enumerate()
-                                .find(|(k, q)| !explained[*k] && q.t >= expect && q.t <= expect + g && q.t <= s.t_end)
+                                .find(|(k, q)| !explained[*k] && q.idx > s.idx0 && q.idx < next_idx0 && q.t >= expect && q.t <= expect + g && q.t <= s.t_end)
                             {
                                 explained[k] = true;
                             }
@@ -145,7 +149,7 @@ pub fn monitor(trace: &Trace, stepping: Stepping, horizon: u64, l: &mut Local) {
                         let hit = qs
                             .iter()
                             .enumerate()
-                            .find(|(k, q)| !explained[*k] && q.t >= expect && q.t <= expect + g);
+                            .find(|(k, q)| !explained[*k] && q.idx > s.idx0 && q.t >= expect && q.t <= expect + g);
                         match hit {
                             Some((k, q)) => {
                                 explained[k] = true;
